@@ -20,14 +20,22 @@ def _shapes(run, g, np, n):
     obs = []
     for c in cases:
         s = np.array(c["s"], dtype=int)
-        ok, part, tree = g.check_tree(s)
+        try:
+            ok, part, tree = g.check_tree(s)
+        except Exception as ex:
+            run.violation("check_tree:raises:%s" % type(ex).__name__, "check_tree(%s) raised %r" % (c["s"], ex), {"s": c["s"]})
+            continue
         ptr = {a: [0 if getattr(t, a) is None else getattr(t, a) + 1 for t in tree] for a in ("parent", "left", "right")}
         obs.append(dict(id=len(obs), kind="check_tree", s=c["s"], success=bool(ok), part=[int(x) for x in part], **ptr))
         if not c["success"]:
             nontriv += 1
     valid = sorted(tuple(c["s"]) for c in cases if c["valid"])
-    with contextlib.redirect_stdout(io.StringIO()):
-        got = [[int(x) for x in row] for row in g.get_allowed_shapes(n)]
+    try:
+        with contextlib.redirect_stdout(io.StringIO()):
+            got = [[int(x) for x in row] for row in g.get_allowed_shapes(n)]
+    except Exception as ex:
+        run.violation("shapes:n%d:raises" % n, "get_allowed_shapes(%d) raised %r" % (n, ex), {"n": n})
+        got = []
     obs.append(dict(id=len(obs), kind="shapes", n=n, shapes=got))
     jres, failed = tlc.judge("TreesJudge", obs)
     run.add_tlc(jres, "judge_shape_n%d" % n)
@@ -63,8 +71,14 @@ def _labelled(run, g, np, s_dir, basis, n):
     out = os.path.join(s_dir, "c01_%s_%d" % (re.sub(r"\W", "_", name), n))
     os.makedirs(out, exist_ok=True)
     buf = io.StringIO()
-    with contextlib.redirect_stdout(buf):
-        all_fun, extra_orig = g.generate_equations(n, basis, out)
+    try:
+        with contextlib.redirect_stdout(buf):
+            all_fun, extra_orig = g.generate_equations(n, basis, out)
+    except Exception as ex:
+        if "'-'" not in str(basis[2]) and type(ex).__name__ == "TypeError":
+            return           # bases without '-': known finding of C11 (find_additional_trees), not an enumeration defect
+        run.violation("generate:raises:%s:n%d" % (name, n), "generate_equations(%d, %s) raised %r" % (n, basis, ex), {"basis": basis, "n": n})
+        return
     trees = libio.read_trees(os.path.join(out, "orig_trees_%d.txt" % n))
     exp = [c["labels"] for c in model]
     key = "%s:n%d" % (name, n)
